@@ -130,7 +130,7 @@ func runParse(c J) J {
 	obs["text"] = src
 	res := guard(func() result {
 		eng := liquid.NewEngine()
-		tpl, err := eng.ParseTemplate([]byte(src))
+		tpl, err := parseScribbled(eng, src, "", 0)
 		if err != nil {
 			return errResult("parse", err, "")
 		}
